@@ -6,6 +6,7 @@ import UpfVerif.Driver.Ctl
 import UpfVerif.Driver.CtlProps
 import UpfVerif.Driver.Perio
 import UpfVerif.Driver.Config
+import UpfVerif.Driver.Buf
 open UpfVerif UpfVerif.Driver
 
 /-- stateless evaluators, by function name -/
@@ -37,6 +38,7 @@ structure Counters where
   tbl : Ctl.TblState := {}
   ps : CtlProps.PState := {}
   perio : PerioD.DState := {}
+  buf : Buf.St := {}
   lines : Nat := 0
   checked : Nat := 0
   diffs : Nat := 0
@@ -58,6 +60,7 @@ partial def loop (h : IO.FS.Stream) (c : Counters) : IO Counters := do
     let res := String.intercalate " " ((rest.dropWhile (· ≠ "=")).drop 1)
     let r : Option (Counters × Verdict) :=
       if fn.startsWith "tbl." then (Ctl.evalTbl c.tbl fn args res).map fun (t, v) => ({ c with tbl := t }, v)
+      else if fn.startsWith "buf." then (BufD.eval c.buf fn args res).map fun (t, v) => ({ c with buf := t }, v)
       else if fn.startsWith "perio." then (PerioD.eval c.perio fn args res).map fun (t, v) => ({ c with perio := t }, v)
       else (evalT fn args res).map fun v => (c, v)
     match r with
